@@ -167,8 +167,6 @@ class Corpus:
                 v = getattr(x, attr)
             except Exception:
                 continue
-            if isinstance(v, D) and 'E' in str(v):
-                continue      # e.g. 0*100 -> Decimal('0E+2'): no plain-notation raw text, out of the Number domain
             if v is not None and not isinstance(v, (props.RepeatedNodeWrapper, vprops.RepeatedValueWrapper)):
                 return copy.deepcopy(v) if isinstance(v, mbase.RawModel) else v
         return None
